@@ -19,6 +19,17 @@
 #include <unistd.h>
 #include <unordered_set>
 
+// Coverage builds (tools/coverage.sh compiles everything with --coverage -DMC_COVERAGE): workers leave
+// through _exit, which skips the gcov atexit dump, so flush the counters by hand.
+#ifdef MC_COVERAGE
+// mc.cpp itself is compiled without --coverage (it may be built by a different compiler than the harness
+// TUs and the two gcov runtimes do not mix); the weak reference binds to the runtime the harness objects bring.
+extern "C" void __gcov_dump(void) __attribute__((weak));
+[[noreturn]] static inline void mc_exit(int c) { if (__gcov_dump) __gcov_dump(); _exit(c); }
+#else
+[[noreturn]] static inline void mc_exit(int c) { _exit(c); }
+#endif
+
 extern "C" const char *__asan_default_options()
 {
     return "abort_on_error=1:detect_leaks=0:detect_stack_use_after_return=1:"
@@ -179,7 +190,7 @@ namespace mc
             (void)!write(fd, "\n", 1);
             close(fd);
         }
-        _exit(3);
+        mc_exit(3);
     }
 
     static std::string case_id()
@@ -592,7 +603,7 @@ namespace mc
                     flush_counters();
                     fclose(g_log);
                     fflush(nullptr);
-                    _exit(4);
+                    mc_exit(4);
                 }
                 if (ar[0] >= 0 && ch[0] >= ar[0])
                     break;
@@ -867,14 +878,14 @@ namespace mc
         }
         g_log = fopen(fmt("%s/w%d.log", g_out.c_str(), w).c_str(), "a");
         if (!g_log)
-            _exit(3);
+            mc_exit(3);
         if (c.is_bfs)
             bfs_worker(resume);
         else
             tree_worker(resume);
         fclose(g_log);
         fflush(nullptr);
-        _exit(0);
+        mc_exit(0);
     }
 
     // run one case alone (hang confirmation / --case replay). returns wait status; -1 = hang
@@ -897,7 +908,7 @@ namespace mc
                 {
                     std::unique_ptr<Model> m = c.factory();
                     printf("key %s\n", clean(m->key()).c_str());
-                    _exit(0);
+                    mc_exit(0);
                 }
                 std::vector<uint16_t> h(choices.begin(), choices.end() - 1);
                 bfs_hist = h;
@@ -945,14 +956,14 @@ namespace mc
                     if (to_stdout)
                         printf("case skipped by the harness (owned by another partition)\n");
                     fflush(nullptr);
-                    _exit(0);
+                    mc_exit(0);
                 }
                 if (to_stdout)
                     printf("case %s\n", clean(case_desc).c_str());
                 commit_case(false);
             }
             fflush(nullptr);
-            _exit(case_viol ? 1 : 0);
+            mc_exit(case_viol ? 1 : 0);
         }
         double t0 = now();
         int st;
@@ -1284,7 +1295,7 @@ namespace mc
                 FILE *f = fopen(tmp.c_str(), "wb");
                 fwrite(k.data(), 1, k.size(), f);
                 fclose(f);
-                _exit(0);
+                mc_exit(0);
             }
             int st;
             waitpid(p, &st, 0);
